@@ -1042,6 +1042,76 @@ def _is_common_prefix_test(pm: ast.FunctionDef) -> bool:
     return False
 
 
+class _Depth:
+    """Guards of wrap_namespace read as constraints on d = len(<path>) - len(self.top_module_namespaces): a guard built
+    from the two lengths (directly, or through locals such as `depth = len(ns) - len(self.top_module_namespaces)`) is
+    evaluated for concrete d; any other guard is unknown and constrains nothing."""
+    T = 3
+
+    def __init__(self, fn, ns: str):
+        self.fn, self.ns = fn, ns
+        d_ = single_def(fn, ns)
+        self.ns_texts = {ns} | ({unparse(d_).replace(" ", "")} if d_ is not None else set())
+
+    def _ev(self, e, d):
+        if isinstance(e, ast.Constant) and isinstance(e.value, (int, bool)):
+            return e.value
+        if isinstance(e, ast.Call) and unparse(e.func) == "len" and len(e.args) == 1:
+            a = unparse(e.args[0]).replace(" ", "")
+            if a in self.ns_texts:
+                return self.T + d
+            if a == "self.top_module_namespaces":
+                return self.T
+            return None
+        if isinstance(e, ast.BinOp) and isinstance(e.op, (ast.Add, ast.Sub)):
+            l, r = self._ev(e.left, d), self._ev(e.right, d)
+            if l is None or r is None:
+                return None
+            return l + r if isinstance(e.op, ast.Add) else l - r
+        if isinstance(e, ast.UnaryOp) and isinstance(e.op, ast.Not):
+            v = self._ev(e.operand, d)
+            return None if v is None else (not v)
+        if isinstance(e, ast.UnaryOp) and isinstance(e.op, ast.USub):
+            v = self._ev(e.operand, d)
+            return None if v is None else -v
+        if isinstance(e, ast.Compare) and len(e.ops) == 1:
+            l, r = self._ev(e.left, d), self._ev(e.comparators[0], d)
+            if l is None or r is None:
+                return None
+            op = e.ops[0]
+            return {ast.Lt: l < r, ast.LtE: l <= r, ast.Gt: l > r, ast.GtE: l >= r, ast.Eq: l == r, ast.NotEq: l != r}.get(type(op))
+        if isinstance(e, ast.BoolOp):
+            vs = [self._ev(v, d) for v in e.values]
+            if isinstance(e.op, ast.And):
+                if any(v is False for v in vs):
+                    return False
+                return None if any(v is None for v in vs) else True
+            if any(v is True for v in vs):
+                return True
+            return None if any(v is None for v in vs) else False
+        return None
+
+    def value(self, text: str, d: int):
+        """Truth of the guard `text` at depth d, or None when it does not (only) speak about the depth."""
+        try:
+            e = inline_locals(self.fn, ast.parse(text, mode="eval").body)
+        except SyntaxError:
+            return None
+        v = self._ev(e, d)
+        return None if v is None else bool(v)
+
+    def possible(self, guards, d: int) -> bool:
+        """Can a statement under `guards` [(text, polarity)] execute at depth d?"""
+        for t, pol in guards:
+            v = self.value(t, d)
+            if v is not None and v != pol:
+                return False
+        return True
+
+    def speaks_of_depth(self, text: str) -> bool:
+        return self.value(text, 0) is not None or self.value(text, 1) is not None
+
+
 def rule_top_namespace_filter(ctx, rep: Report, rid="A3"):
     ci, prog = pw(ctx)
     fn = prog.method("PybindWrapper", "wrap_namespace")
@@ -1064,24 +1134,49 @@ def rule_top_namespace_filter(ctx, rep: Report, rid="A3"):
     ok2 = _is_common_prefix_test(pm)
     rep.add(rid, "_partial_match:all positions below min(len a, len b) equal", ok2, unparse(pm)[-200:].replace("\n", " "),
             f"{ci.mod.rel}:{pm.lineno}")
-    # shorter-than-top branch: only includes and recursion contribute
-    short = None
-    for st in fn.body:
-        if isinstance(st, ast.If) and unparse(st.test).replace(" ", "") == f"len({ns})<len(self.top_module_namespaces)":
-            short = st
-    if short is None:
-        rep.add(rid, "wrap_namespace:branch for namespaces above the top namespace", False,
-                "no `len(<path>) < len(self.top_module_namespaces)` branch found", f"{ci.mod.rel}:{fn.lineno}")
-        return
-    kinds = set()
-    for t in ast.walk(ast.Module(body=short.body, type_ignores=[])):
-        if isinstance(t, ast.Call):
-            cs = _isinstance_classes(prog, ci.mod, t)
-            if cs:
-                kinds |= cs
+    # above the top namespace (d < 0) nothing is bound: only include lines are collected and deeper namespaces descended into
+    dp = _Depth(fn, ns)
+    rec_names = set()
+    for st in walk_no_nested(fn):
+        if isinstance(st, ast.Assign) and isinstance(st.value, ast.Call) and unparse(st.value.func) == "self.wrap_namespace":
+            for t_ in st.targets:
+                rec_names |= {x.id for x in ast.walk(t_) if isinstance(x, ast.Name)}
+
+    def fed_only_inside(value) -> bool:
+        """The emitted value is a call on a local list that receives elements only at d >= 0 (an empty list above the top
+        namespace yields no text)."""
+        if not isinstance(value, ast.Call):
+            return False
+        for a_ in list(value.args) + [k.value for k in value.keywords]:
+            if isinstance(a_, ast.Name) and a_.id not in func_params(fn):
+                feeds = [c for c in walk_no_nested(fn) if isinstance(c, ast.Call) and isinstance(c.func, ast.Attribute) and c.func.attr in ("append", "extend")
+                         and isinstance(c.func.value, ast.Name) and c.func.value.id == a_.id]
+                binds = [st for st in local_assignments(fn).get(a_.id, []) if isinstance(st, ast.Assign)]
+                lits = all(isinstance(st.value, (ast.List, ast.ListComp)) for st in binds)
+                if not lits or not (feeds or binds):
+                    continue
+                sites = feeds + [st for st in binds if isinstance(st.value, ast.ListComp) or (isinstance(st.value, ast.List) and st.value.elts)]
+                if sites and all(not dp.possible(guards_of(x, fn, include_exits=True), -1) and not dp.possible(guards_of(x, fn, include_exits=True), -2) for x in sites):
+                    return True
+        return False
+    leaks, rec_above, inc_above = [], False, False
+    for e in emits:
+        gs_ = guards_of(e, fn, include_exits=True)
+        above = dp.possible(gs_, -1) or dp.possible(gs_, -2)
+        is_rec = isinstance(e.value, ast.Name) and e.value.id in rec_names
+        if e.target.id == includes_name:
+            inc_above = inc_above or above
+            continue
+        if is_rec:
+            rec_above = rec_above or above
+            continue
+        if above and not fed_only_inside(e.value):
+            leaks.append(f"line {e.lineno}: {unparse(e)[:60]}")
     rep.add(rid, "wrap_namespace:above the top namespace only includes are collected and namespaces descended into",
-            kinds == {"Include", "Namespace"}, f"kinds handled above the top namespace: {sorted(kinds)}",
-            f"{ci.mod.rel}:{short.lineno}")
+            not leaks and rec_above and inc_above,
+            f"bound above the top namespace: {leaks}; deeper namespaces reached from above: {rec_above}; includes collected above: {inc_above} "
+            f"(guards read as constraints on len(<path>) - len(self.top_module_namespaces)): a declaration outside the top namespace must not be "
+            f"registered on the top module, and the top namespace must still be reached through its enclosing namespaces", f"{ci.mod.rel}:{fn.lineno}")
 
 
 def rule_depth_relative(ctx, rep: Report, rid="A7"):
@@ -1105,6 +1200,12 @@ def rule_depth_relative(ctx, rep: Report, rid="A7"):
                         f"the module variable is computed from the namespace path sliced at `{sl}`; it must be "
                         f"relative to len(self.top_module_namespaces) - a constant is right only for a top "
                         f"namespace of that one depth", f"{ci.mod.rel}:{x.lineno}")
+            if isinstance(x, ast.BinOp) and isinstance(x.op, ast.Sub) and f"len({path})" in (unparse(x.left), unparse(x.right)):
+                # `depth = len(<path>) - len(self.top_module_namespaces)`: the same comparison, written as a difference
+                n += 1
+                other = unparse(x.right if unparse(x.left) == f"len({path})" else x.left).replace(" ", "")
+                rep.add(rid, f"{name}:{unparse(x).replace(path, '<path>')[:60]}", other == "len(self.top_module_namespaces)",
+                        f"namespace depth is taken relative to {other}; it must be relative to len(self.top_module_namespaces)", f"{ci.mod.rel}:{x.lineno}")
             if isinstance(x, ast.Compare) and f"len({path})" in unparse(x):
                 n += 1
                 others = [unparse(o).replace(" ", "") for o in [x.left] + x.comparators if f"len({path})" not in unparse(o)]
@@ -1112,8 +1213,8 @@ def rule_depth_relative(ctx, rep: Report, rid="A7"):
                 rep.add(rid, f"{name}:{unparse(x).replace(path, '<path>')[:60]}", ok,
                         f"namespace depth is compared with {others}; it must be compared with "
                         f"len(self.top_module_namespaces)", f"{ci.mod.rel}:{x.lineno}")
-    if n < 3:
-        raise AnalysisError(f"{rep.prop}/{rid}: {n} depth computations found, 3 expected")
+    if n < 1:
+        raise AnalysisError(f"{rep.prop}/{rid}: no depth computation (slice of / comparison with the namespace path) found")
 
 
 def rule_submodule_once(ctx, rep: Report, rid="A4"):
@@ -1150,12 +1251,14 @@ def rule_submodule_once(ctx, rep: Report, rid="A4"):
             continue
         e = ast.parse(t, mode="eval").body
         gs += [unparse(v) for v in e.values] if isinstance(e, ast.BoolOp) and isinstance(e.op, ast.And) else [t]
-    depth_guard = any(g.replace(" ", "") == f"len({_namespaces_local(fn)})>len(self.top_module_namespaces)" for g in gs)
+    dp = _Depth(fn, _namespaces_local(fn))
+    all_gs = guards_of(site, fn, include_exits=True)
+    depth_guard = dp.possible(all_gs, 1) and dp.possible(all_gs, 2) and not dp.possible(all_gs, 0) and not dp.possible(all_gs, -1)
     once = any(("not in self." in g or "notin self." in g) for g in gs) or any("not in self." in g for g in gs)
-    rep.add(rid, "submodule:only for namespaces strictly below the top namespace", depth_guard, f"guards {gs}",
+    rep.add(rid, "submodule:only for namespaces strictly below the top namespace", depth_guard,
+            f"guards {gs}: reachable at depth -1/0/1/2 relative to the top namespace: {[dp.possible(all_gs, d_) for d_ in (-1, 0, 1, 2)]}",
             f"{ci.mod.rel}:{site.lineno}")
-    extra = [g for g in gs if g.replace(" ", "") != f"len({_namespaces_local(fn)})>len(self.top_module_namespaces)"
-             and "not in self." not in g]
+    extra = [g for g in gs if not dp.speaks_of_depth(g) and "not in self." not in g]
     rep.add(rid, "submodule:declared on the first visit of every namespace below the top namespace (no further condition)", not extra,
             f"the declaration is skipped unless {extra}: the variable is still named as the parent of nested namespaces' "
             "submodules and as the target of every binding of this namespace, so the generated C++ uses an undeclared "
@@ -1404,8 +1507,14 @@ def rule_all_children_visited(ctx, rep: Report, rid="A3"):
     fn = prog.method("PybindWrapper", "wrap_namespace")
     np_ = func_params(fn)[1]
     calls = [c for c in walk_no_nested(fn) if isinstance(c, ast.Call) and unparse(c.func) == "self.wrap_namespace"]
-    if len(calls) < 2:
-        raise AnalysisError(f"wrap_namespace: {len(calls)} recursive calls found, 2 expected")
+    if not calls:
+        raise AnalysisError("wrap_namespace: no recursive call found")
+    # child namespaces are visited whether this namespace lies above the top namespace, is it, or lies below it
+    dp = _Depth(fn, _namespaces_local(fn))
+    uncovered = [d_ for d_ in (-2, -1, 0, 1, 2) if not any(dp.possible(guards_of(c, fn, include_exits=True), d_) for c in calls)]
+    rep.add(rid, "wrap_namespace:child namespaces are descended into at every depth relative to the top namespace", not uncovered,
+            f"no recursive call is reachable when len(<path>) - len(self.top_module_namespaces) is {uncovered}: the namespaces nested there "
+            f"(and, above the top namespace, the top namespace itself) are never wrapped", f"{ci.mod.rel}:{fn.lineno}")
     for k, c in enumerate(sorted(calls, key=lambda x: x.lineno)):
         loop = enclosing(c, ast.For)
         arg = c.args[0] if c.args else None
@@ -1658,7 +1767,7 @@ def rule_dispatch_branches_contribute(ctx, rep: Report, rid="A10", wrapper="Pybi
             while isinstance(cur, ast.If):
                 t = cur.test
                 if isinstance(t, ast.Call) and unparse(t.func) == "isinstance" and unparse(t.args[0]) == v:
-                    kind = unparse(t.args[1]).split(".")[-1]
+                    kind = "/".join(unparse(k_).split(".")[-1] for k_ in (t.args[1].elts if isinstance(t.args[1], ast.Tuple) else [t.args[1]]))
                     # names that depend on the element inside this branch
                     dep = {v}
                     changed = True
@@ -1679,6 +1788,13 @@ def rule_dispatch_branches_contribute(ctx, rep: Report, rid="A10", wrapper="Pybi
                                         changed = True
                     contrib = [x for x in body_nodes if isinstance(x, ast.AugAssign) and isinstance(x.target, ast.Name) and x.target.id in returned
                                and any(isinstance(y, ast.Name) and y.id in dep for y in ast.walk(x.value))]
+                    # ... or files the element in a local collection from which a returned accumulator is fed after the loop
+                    for x in body_nodes:
+                        if isinstance(x, ast.Call) and isinstance(x.func, ast.Attribute) and x.func.attr in ("append", "extend", "add") \
+                                and isinstance(x.func.value, ast.Name) and any(isinstance(y, ast.Name) and y.id in dep for a_ in x.args for y in ast.walk(a_)):
+                            coll = x.func.value.id
+                            contrib += [y for y in walk_no_nested(fn) if isinstance(y, ast.AugAssign) and isinstance(y.target, ast.Name) and y.target.id in returned
+                                        and any(isinstance(z, ast.Name) and z.id == coll for z in ast.walk(y.value))]
                     n += 1
                     rep.add(rid, f"{method}:loop@{'above' if enclosing(loop, ast.If) is not None and loop in getattr(enclosing(loop, ast.If), 'body', []) else 'below'}"
                                  f":{kind}:the branch adds what it produced to the result", bool(contrib),
